@@ -349,6 +349,44 @@ class HvNoInputs(Logic):
             Not(self, 'inv', q, d)
 
 
+class HvParamReg(Logic):
+    """parametrised behavioural leaf (shared module name per width)"""
+    def __init__(self, parent, name, a, load, r, init_value):
+        super().__init__(parent, name)
+        self.a = self.addIn('a', a)
+        self.load = self.addIn('load', load)
+        self.r = self.addOut('r', r)
+        self.addParameter('INIT', init_value)
+
+    def structureName(self):
+        return 'HvParamReg_{}'.format(self.r.getWidth())
+
+    def clock(self):
+        if (self.load.get()):
+            self.r.prepare(self.a.get())
+        else:
+            self.r.prepare(self.getParameterValue('INIT'))
+
+
+class HvParamPair(Logic):
+    """two parametrised leaves; one takes a literal, the other the parameter of the enclosing block (pass-through), in either order"""
+    def __init__(self, parent, name, a, load, r, pname, value, passthrough_first):
+        super().__init__(parent, name)
+        self.addIn('a', a)
+        self.addIn('load', load)
+        self.addOut('r', r)
+        self.addParameter(pname, value)
+        r1 = self.wire('r1', r.getWidth())
+        r2 = self.wire('r2', r.getWidth())
+        if passthrough_first:
+            HvParamReg(self, 'p1', a, load, r1, self.getParameter(pname))
+            HvParamReg(self, 'p2', a, load, r2, 4)
+        else:
+            HvParamReg(self, 'p1', a, load, r1, 3)
+            HvParamReg(self, 'p2', a, load, r2, self.getParameter(pname))
+        Xor2(self, 'x', r1, r2, r)
+
+
 class HvInvChild(Not):
     """a leaf that inherits propagate() from a library block"""
     pass
